@@ -585,6 +585,29 @@ Definition q2_oracle (ops obs : list (list Z)) : bool :=
   && nodup_b (map fst vals)
   && prefix_b (map snd vals) pushed.
 
+(* ---------- engine qx: items whose constructor throws on demand ----------
+   `1 v` with v < 0: the item constructor throws inside push().  While nobody waits (the item would be constructed by
+   _queue.emplace under the lock, queue.h 156) the exception must leave the queue unchanged and usable; the harness
+   reports ret = -1.  While a pop is waiting the op is not issued (both sides print `rejected`): see notes/C09.md. *)
+Definition is_throw (l : list Z) : bool := match l with [1; v] => v <? 0 | _ => false end.
+Fixpoint qx_run_from (q : queue) (ops : list (list Z)) : list (list Z) :=
+  match ops with
+  | [] => []
+  | l :: t =>
+      if is_throw l
+      then (if alive q && (match waiters q with [] => true | _ => false end) then q_obs q q (-1) else rejected) :: qx_run_from q t
+      else let '(q1, o) := q_step q (q_decode l) in o :: qx_run_from q1 t
+  end.
+Definition qx_run (ops : list (list Z)) : list (list Z) := qx_run_from q0 ops.
+(* oracle: a throwing push reports -1 (or is rejected) and, with those ops removed, the trace is the FIFO specification's
+   trace of the remaining history: the failed push changed nothing *)
+Definition qx_oracle (ops obs : list (list Z)) : bool :=
+  let pairs := combine ops obs in
+  let kept := filter (fun p => negb (is_throw (fst p))) pairs in
+  Nat.eqb (length ops) (length obs)
+  && forallb (fun p => if is_throw (fst p) then match snd p with [1] => true | 0 :: -1 :: _ => true | _ => false end else true) pairs
+  && q_oracle (map fst kept) (map snd kept).
+
 (* =====================================================================================
    Interleaving model: producer / consumer / unblock_pop / unblock_push / size / destroy threads over queue<T>
    (limit = None) or limited_queue<T> (limit = Some n).  One step = one critical section (entered at the hook point
